@@ -67,6 +67,8 @@ type coreSim struct {
 	trace     []string          // offset-normalised observable trace (C12), when traceOn
 	traceOn   bool
 	tw        [2]timeoutWatch
+	adv       [2]uint32 // the peer's window as last advertised in a REGULAR datagram (tracked here, not read from the core)
+	advSet    [2]bool
 }
 
 func (s *coreSim) logf(format string, a ...any) {
@@ -264,6 +266,7 @@ func (s *coreSim) Input(e int, d []byte, regular, acknd bool) int {
 	var ret int
 	in := append([]byte(nil), d...)
 	before := s.snapshot(e)
+	s.advTrack(e, d, regular)
 	p, why := s.guarded(func() { ret = s.k[e].Input(in, pt, acknd) })
 	if p {
 		s.logf("input %d %d %d %d %s = P\n", e, s.now, r, a, hx(d))
@@ -373,6 +376,7 @@ func (s *coreSim) end() { s.logf("end\n") }
 
 type coreSnap struct {
 	rmtWnd, cwnd, sndUna, sndNxt uint32
+	adv                           uint32 // harness-tracked advertised window (IKCP_WND_RCV until told)
 	sndBuf                        int
 	maxXmit                       map[uint32]uint32
 	lost, fast, early             uint64
@@ -390,7 +394,33 @@ func (s *coreSim) snapshot(e int) coreSnap {
 	sn := coreSnap{rmtWnd: k.rmt_wnd, cwnd: k.cwnd, sndUna: k.snd_una, sndNxt: k.snd_nxt, sndBuf: k.snd_buf.Len(), maxXmit: map[uint32]uint32{},
 		lost: atomic.LoadUint64(&DefaultSnmp.LostSegs), fast: atomic.LoadUint64(&DefaultSnmp.FastRetransSegs), early: atomic.LoadUint64(&DefaultSnmp.EarlyRetransSegs)}
 	k.snd_buf.ForEach(func(g *segment) bool { sn.maxXmit[g.sn] = g.xmit; return true })
+	sn.adv = IKCP_WND_RCV
+	if s.advSet[e] {
+		sn.adv = s.adv[e]
+	}
 	return sn
+}
+
+// advTrack: what the peer last advertised to endpoint e, read off the REGULAR datagrams handed to its
+// Input by an independent walk over the segments (as far as Input itself gets: a foreign conv, a
+// length beyond the datagram or an unknown cmd ends the datagram)
+func (s *coreSim) advTrack(e int, d []byte, regular bool) {
+	if !regular {
+		return
+	}
+	conv := s.k[e].conv
+	for len(d) >= IKCP_OVERHEAD {
+		if binary.LittleEndian.Uint32(d) != conv {
+			return
+		}
+		cmd, wnd, ln := d[4], binary.LittleEndian.Uint16(d[6:]), int(binary.LittleEndian.Uint32(d[20:]))
+		d = d[IKCP_OVERHEAD:]
+		if len(d) < ln || ln > mtuLimit || cmd < IKCP_CMD_PUSH || cmd > IKCP_CMD_WINS {
+			return
+		}
+		s.adv[e], s.advSet[e] = uint32(wnd), true
+		d = d[ln:]
+	}
 }
 
 func (s *coreSim) violate(key, what string) {
@@ -586,6 +616,19 @@ func (s *coreSim) monFlushX(e int, before coreSnap, outs [][]byte, full bool, ad
 								s.violate("core-admit-after-timeout:fast-recovery", fmt.Sprintf("new segment sn=%d put on the wire after a timeout loss while the oldest outstanding segment sn=%d is unacknowledged (cwnd re-opened to %d by a later fast/early retransmission)", w.sn, tw.una, before.cwnd))
 							} else {
 								s.violate("core-admit-after-timeout", fmt.Sprintf("new segment sn=%d put on the wire after a timeout loss while the oldest outstanding segment sn=%d is unacknowledged (cwnd=%d)", w.sn, tw.una, before.cwnd))
+							}
+						}
+						if admission && curMon.windows {
+							// the same judged with the window the PEER last advertised in a regular datagram,
+							// tracked by the harness (a core that trusts a stale or recovered advertisement
+							// agrees with its own rmt_wnd and is caught here)
+							s.rep.Monitors["first-xmit-advertised-window"]++
+							alim := min(k.snd_wnd, before.adv)
+							if k.nocwnd == 0 {
+								alim = min(alim, before.cwnd)
+							}
+							if w.sn-before.sndUna >= alim && w.sn-before.sndUna < lim {
+								s.violate("core-admit-beyond-advertised", fmt.Sprintf("new segment sn=%d put on the wire with %d outstanding while the window the peer last advertised in a regular datagram is %d (the core's rmt_wnd is %d)", w.sn, w.sn-before.sndUna, before.adv, before.rmtWnd))
 							}
 						}
 						if admission && w.sn-before.sndUna >= lim {
